@@ -66,6 +66,17 @@ def gen_value(rng, depth=0):
     return dict((rng.choice([1, "k", None, (1, 2), "\xe9", 2 ** 70]), gen_value(rng, depth + 1)) for _ in range(n))
 
 
+class _TextToBytes(object):
+    """xdis.marsh.dump writes str chunks (one char per byte) and bytes chunks to f.write; a binary file needs bytes"""
+    def __init__(self, f):
+        self.f = f
+
+    def write(self, chunk):
+        if isinstance(chunk, str):
+            chunk = bytes(bytearray(ord(c) for c in chunk))
+        self.f.write(chunk)
+
+
 def main():
     count, seed = int(sys.argv[1]), int(sys.argv[2])
     import xdis.marsh as X
@@ -77,6 +88,10 @@ def main():
 
     def vio(direction, v, detail):
         key = "%s:%s" % (direction, detail.split(":")[0].split("(")[0][:60])
+        if direction.endswith("->load") and "%c requires int or char" in detail:
+            key = "file-load-unusable-on-python3"
+        if direction == "dump->marshal.loads" and "to a binary file raised TypeError" in detail:
+            key = "file-dump-writes-str-chunks"
         if key in seen:
             return
         seen.add(key)
@@ -97,6 +112,27 @@ def main():
                 d = "marshal.loads rejected the bytes: %s: %s" % (type(e).__name__, e)
             if d:
                 vio("dumps->marshal.loads", v, d)
+        # the file-object forms of the same two functions
+        import io
+        out["evaluations"] += 1
+        try:
+            f = io.BytesIO()
+            X.dump(v, f)
+            d = same(v, marshal.loads(f.getvalue()))
+        except Exception as e:
+            d = "xdis.marsh.dump to a binary file raised %s: %s" % (type(e).__name__, e)
+        if d:
+            vio("dump->marshal.loads", v, d)
+        # the chunks dump() writes, converted the way dumps() converts them: the marshaller itself is the one of dumps()
+        out["evaluations"] += 1
+        try:
+            f = io.BytesIO()
+            X.dump(v, _TextToBytes(f))
+            d = same(v, marshal.loads(f.getvalue()))
+        except Exception as e:
+            d = "xdis.marsh.dump (chunks converted) raised or wrote what marshal.loads rejects: %s: %s" % (type(e).__name__, e)
+        if d:
+            vio("dump(chunks converted)->marshal.loads", v, d)
         for ver in (0, 1):
             out["evaluations"] += 1
             try:
@@ -110,6 +146,13 @@ def main():
                 d = "xdis.marsh.loads raised %s: %s" % (type(e).__name__, e)
             if d:
                 vio("marshal.dumps(v,%d)->loads" % ver, v, d)
+            try:
+                back = X.load(io.BytesIO(hd))
+                d = same(v, back)
+            except Exception as e:
+                d = "xdis.marsh.load raised %s: %s" % (type(e).__name__, e)
+            if d:
+                vio("marshal.dumps(v,%d)->load" % ver, v, d)
     print(json.dumps(out))
 
 
